@@ -1,6 +1,454 @@
-//! C06 — monitor not written yet.
-use crate::ctx::Ctx;
+//! C06 — an accepted proof is rejected under any other statement, key or context.
+//!
+//! Acceptance under a substituted tuple is itself the refutation. Every negative check is paired
+//! with the positive control (the unsubstituted tuple is accepted) in the same case.
+
+use crate::ctx::{guard, Ctx};
+use crate::fixtures::{self, Merchant};
+use crate::props::util::*;
+use crate::session::{amount, new_channel_id, Sess, Stage};
+use crate::tracer::trace;
+use crate::wire::{dec, enc};
+use bls12_381::Scalar;
+use rand_core::{CryptoRng, RngCore};
+use serde_json::json;
+use zkabacus_crypto::{self as zk, customer::ClosingMessage, merchant, ChannelId, Context, CustomerBalance, MerchantBalance, Verification};
+
+const MAXB: u64 = i64::MAX as u64;
+
+fn init_accepts(m: &Merchant, rng: &mut (impl RngCore + CryptoRng), cid: &ChannelId, cust: u64, merch: u64, proof: &[u8], ctx: &[u8]) -> Result<bool, String> {
+    let p: zk::EstablishProof = dec(proof)?;
+    let cb = CustomerBalance::try_new(cust).map_err(|e| format!("{:?}", e))?;
+    let mb = MerchantBalance::try_new(merch).map_err(|e| format!("{:?}", e))?;
+    Ok(m.cfg.initialize(rng, cid, cb, mb, p, &Context::new(ctx)).is_some())
+}
+
+fn pay_accepts(m: &Merchant, rng: &mut (impl RngCore + CryptoRng), amt: i64, nonce: &[u8], proof: &[u8], ctx: &[u8]) -> Result<bool, String> {
+    let p: zk::PayProof = dec(proof)?;
+    let n: zk::Nonce = dec(nonce)?;
+    Ok(m.cfg.allow_payment(rng, amount(amt)?, &n, p, &Context::new(ctx)).is_some())
+}
+
+/// merchant configuration identical to `m` except for the part taken from `other`
+fn recombine(m: &Merchant, other: &Merchant, part: &str) -> Result<&'static Merchant, String> {
+    let kp = if part == "key" { other.cfg.signing_keypair() } else { m.cfg.signing_keypair() };
+    let rev = if part == "revocation-parameters" { other.cfg.revocation_commitment_parameters() } else { m.cfg.revocation_commitment_parameters() };
+    let range = if part == "range-parameters" { other.cfg.range_constraint_parameters() } else { m.cfg.range_constraint_parameters() };
+    let cfg = merchant::Config::from_parts(dec(&enc(kp))?, dec(&enc(rev))?, dec(&enc(range))?);
+    let f = fixtures::from_config(&format!("{}-with-other-{}", m.label, part), cfg)?;
+    Ok(Box::leak(Box::new(f)))
+}
+
+fn context_variants(ctx: &[u8]) -> Vec<(&'static str, Vec<u8>)> {
+    let mut v = vec![];
+    let mut a = ctx.to_vec();
+    a[0] ^= 1;
+    v.push(("context-first-byte", a));
+    let mut a = ctx.to_vec();
+    let l = a.len();
+    a[l - 1] ^= 0x80;
+    v.push(("context-last-byte", a));
+    let mut a = ctx.to_vec();
+    a.push(0);
+    v.push(("context-byte-appended", a));
+    v.push(("context-truncated", ctx[..ctx.len() - 1].to_vec()));
+    v.push(("context-empty", vec![]));
+    v
+}
+
+fn establish_case(c: &mut Ctx, m: &'static Merchant, other: &'static Merchant, name: &str, cust: u64, merch: u64) {
+    let mut rng = c.rng(name);
+    let ctx = name.as_bytes().to_vec();
+    let cid = new_channel_id(m, &mut rng, b"m", b"c");
+    let (_s, proof) = match Sess::request(m, &mut rng, cid, cust, merch, &ctx) {
+        Ok(x) => x,
+        Err(e) => return c.inconclusive(&e),
+    };
+    c.eval();
+    match init_accepts(m, &mut rng, &cid, cust, merch, &proof, &ctx) {
+        Ok(true) => c.count("positive_controls_accepted", 1),
+        _ => return c.inconclusive("C06: positive control (honest establish proof under its own tuple) not accepted"),
+    }
+    let mut subs: Vec<(String, Result<bool, String>)> = vec![];
+    let cid2 = new_channel_id(m, &mut rng, b"m", b"c");
+    subs.push(("channel-id-fresh".into(), init_accepts(m, &mut rng, &cid2, cust, merch, &proof, &ctx)));
+    let mut idb = cid.to_bytes();
+    idb[31] ^= 1;
+    if let Ok(cid3) = dec::<ChannelId>(&idb) {
+        subs.push(("channel-id-one-bit".into(), init_accepts(m, &mut rng, &cid3, cust, merch, &proof, &ctx)));
+    }
+    for (k, cb, mb) in [
+        ("customer-balance+1", cust.wrapping_add(1), merch),
+        ("customer-balance-1", cust.wrapping_sub(1), merch),
+        ("merchant-balance+1", cust, merch.wrapping_add(1)),
+        ("merchant-balance-1", cust, merch.wrapping_sub(1)),
+        ("balances-swapped", merch, cust),
+        ("balances-moved", cust.wrapping_add(1), merch.wrapping_sub(1)),
+    ] {
+        if cb <= MAXB && mb <= MAXB && (cb, mb) != (cust, merch) {
+            subs.push((k.into(), init_accepts(m, &mut rng, &cid, cb, mb, &proof, &ctx)));
+        }
+    }
+    for (k, cx) in context_variants(&ctx) {
+        subs.push((k.into(), init_accepts(m, &mut rng, &cid, cust, merch, &proof, &cx)));
+    }
+    match recombine(m, other, "key") {
+        Ok(mx) => subs.push(("merchant-key".into(), init_accepts(mx, &mut rng, &cid, cust, merch, &proof, &ctx))),
+        Err(e) => c.inconclusive(&e),
+    }
+    subs.push(("other-merchant".into(), init_accepts(other, &mut rng, &cid, cust, merch, &proof, &ctx)));
+    for (k, r) in subs {
+        c.eval();
+        c.distinct(&format!("establish/{}/{}", k, class_u64(cust)));
+        match r {
+            Ok(false) => c.count(&format!("rejected[establish/{}]", k), 1),
+            Ok(true) => c.violation(
+                &format!("C06 accepted-under-substituted-tuple proof=EstablishProof component={}", k),
+                json!({"component": k, "agreed": [cust.to_string(), merch.to_string()]}),
+            ),
+            Err(e) => c.inconclusive(&e),
+        }
+    }
+}
+
+fn pay_case(c: &mut Ctx, m: &'static Merchant, other: &'static Merchant, name: &str, cust: u64, merch: u64, amt: i64) {
+    let mut rng = c.rng(name);
+    let ctx = name.as_bytes().to_vec();
+    let mut s = match Sess::open(m, &mut rng, cust, merch, &ctx) {
+        Ok(s) => s,
+        Err(e) => return c.inconclusive(&e),
+    };
+    let (nonce, proof) = match s.c_start(&mut rng, amount(amt).unwrap(), &ctx) {
+        Ok(Ok(x)) => x,
+        _ => return c.inconclusive("C06: honest start refused"),
+    };
+    c.eval();
+    match pay_accepts(m, &mut rng, amt, &nonce, &proof, &ctx) {
+        Ok(true) => c.count("positive_controls_accepted", 1),
+        _ => return c.inconclusive("C06: positive control (honest pay proof under its own tuple) not accepted"),
+    }
+    let mut subs: Vec<(String, Result<bool, String>)> = vec![];
+    for part in ["key", "revocation-parameters", "range-parameters"] {
+        match recombine(m, other, part) {
+            Ok(mx) => subs.push((part.to_string(), pay_accepts(mx, &mut rng, amt, &nonce, &proof, &ctx))),
+            Err(e) => c.inconclusive(&e),
+        }
+    }
+    subs.push(("other-merchant".into(), pay_accepts(other, &mut rng, amt, &nonce, &proof, &ctx)));
+    let n = crate::refs::sc(&nonce).unwrap_or(Scalar::zero());
+    subs.push(("nonce+1".into(), pay_accepts(m, &mut rng, amt, &(n + Scalar::one()).to_bytes(), &proof, &ctx)));
+    let fresh_nonce = enc(&zk::internal::test_new_nonce(&mut rng));
+    subs.push(("nonce-fresh".into(), pay_accepts(m, &mut rng, amt, &fresh_nonce, &proof, &ctx)));
+    for (k, a) in [("amount+1", amt.wrapping_add(1)), ("amount-1", amt.wrapping_sub(1)), ("amount-negated", -amt), ("amount-zero", 0), ("amount-doubled", amt.wrapping_mul(2))] {
+        if a != amt && a != i64::MIN {
+            subs.push((k.into(), pay_accepts(m, &mut rng, a, &nonce, &proof, &ctx)));
+        }
+    }
+    for (k, cx) in context_variants(&ctx) {
+        subs.push((k.into(), pay_accepts(m, &mut rng, amt, &nonce, &proof, &cx)));
+    }
+    for (k, r) in subs {
+        c.eval();
+        c.distinct(&format!("pay/{}/{}", k, class_i64(amt)));
+        match r {
+            Ok(false) => c.count(&format!("rejected[pay/{}]", k), 1),
+            Ok(true) => c.violation(
+                &format!("C06 accepted-under-substituted-tuple proof=PayProof component={}", k),
+                json!({"component": k, "amount": amt.to_string()}),
+            ),
+            Err(e) => c.inconclusive(&e),
+        }
+    }
+}
+
+fn reply_to(s: &mut Sess, reply: &[u8]) -> Result<bool, String> {
+    match s.stage.name() {
+        "requested" => s.c_complete(reply),
+        "inactive" => s.c_activate(reply),
+        "started" => s.c_lock(reply).map(|o| o.is_some()),
+        "locked" => s.c_unlock(reply),
+        x => Err(format!("stage {} takes no reply", x)),
+    }
+}
+
+/// replies and proofs recorded in one session presented in another
+fn replay_case(c: &mut Ctx, m: &'static Merchant, other: &'static Merchant, name: &str) {
+    let mut rng = c.rng(name);
+    // session A: full establishment and one payment, everything recorded
+    let ctx_a = format!("{}/A", name).into_bytes();
+    let mut a = match Sess::open(m, &mut rng, 500, 500, &ctx_a) {
+        Ok(s) => s,
+        Err(e) => return c.inconclusive(&e),
+    };
+    if a.pay(&mut rng, amount(5).unwrap(), &ctx_a).map(|r| r.is_ok()) != Ok(true) {
+        return c.inconclusive("C06: session A payment failed");
+    }
+    let rec: Vec<(String, Vec<u8>)> = a.log.iter().filter(|r| r.dir == "m2c").enumerate().map(|(i, r)| (format!("A{}:{}", i, r.kind), r.bytes.clone())).collect();
+    // victims: same merchant / other channel with the same balances; other merchant
+    for (vk, vm) in [("same-merchant-other-channel", m), ("other-merchant", other)] {
+        let ctx_b = format!("{}/B/{}", name, vk).into_bytes();
+        let cid = new_channel_id(vm, &mut rng, b"m", b"c");
+        let (mut b, proof) = match Sess::request(vm, &mut rng, cid, 500, 500, &ctx_b) {
+            Ok(x) => x,
+            Err(e) => return c.inconclusive(&e),
+        };
+        // walk B through all four reply points; at each, first offer every recorded reply of A
+        loop {
+            let stage = b.stage.name();
+            if matches!(stage, "requested" | "inactive" | "started" | "locked") {
+                for (k, r) in &rec {
+                    let before = b.stage.bytes();
+                    c.eval();
+                    c.distinct(&format!("replay/{}/{}/{}", vk, stage, k.split(':').last().unwrap_or("")));
+                    match reply_to(&mut b, r) {
+                        Ok(false) => {
+                            c.count(&format!("replayed_replies_refused[{}]", vk), 1);
+                            if b.stage.bytes() != before {
+                                c.violation("C06 replayed-reply-changed-state", json!({"victim": vk, "stage": stage, "reply": k}));
+                            }
+                        }
+                        Ok(true) => {
+                            return c.violation(
+                                &format!("C06 replayed-reply-accepted victim={} stage={}", vk, stage),
+                                json!({"victim": vk, "stage": stage, "reply": k}),
+                            );
+                        }
+                        Err(e) => return c.inconclusive(&e),
+                    }
+                }
+            }
+            // then the honest step
+            let r: Result<(), String> = (|| {
+                match stage {
+                    "requested" => {
+                        let sig = b.m_initialize(&mut rng, 500, 500, &proof, &ctx_b)?.ok_or("honest establish refused")?;
+                        if !b.c_complete(&sig)? {
+                            return Err("honest reply refused".into());
+                        }
+                    }
+                    "inactive" => {
+                        let tok = b.m_activate(&mut rng)?;
+                        if !b.c_activate(&tok)? {
+                            return Err("honest reply refused".into());
+                        }
+                    }
+                    "ready" => {
+                        let (n, p) = b.c_start(&mut rng, amount(5)?, &ctx_b)?.map_err(|e| format!("{:?}", e))?;
+                        let sig = b.m_allow(&mut rng, amount(5)?, &n, &p, &ctx_b)?.ok_or("honest pay proof refused")?;
+                        // keep the honest reply for the next iteration
+                        b.log.push(crate::session::MsgRec { dir: "m2c", kind: "held", bytes: sig, step: 0 });
+                    }
+                    "started" => {
+                        let sig = b.log.iter().rev().find(|r| r.kind == "held").map(|r| r.bytes.clone()).ok_or("no held reply")?;
+                        let (pair, bf) = b.c_lock(&sig)?.ok_or("honest reply refused")?;
+                        let tok = b.m_complete(&mut rng, &pair, &bf)?.ok_or("honest revocation refused")?;
+                        b.log.push(crate::session::MsgRec { dir: "m2c", kind: "held2", bytes: tok, step: 0 });
+                    }
+                    "locked" => {
+                        let tok = b.log.iter().rev().find(|r| r.kind == "held2").map(|r| r.bytes.clone()).ok_or("no held reply")?;
+                        if !b.c_unlock(&tok)? {
+                            return Err("honest reply refused".into());
+                        }
+                    }
+                    _ => {}
+                }
+                Ok(())
+            })();
+            if let Err(e) = r {
+                return c.inconclusive(&format!("C06: victim session failed: {}", e));
+            }
+            if stage == "locked" {
+                break;
+            }
+        }
+    }
+    // recorded proofs of A replayed under another context / for another channel
+    let est = a.log.iter().find(|r| r.kind == "establish_proof").map(|r| r.bytes.clone());
+    let nonce = a.log.iter().find(|r| r.kind == "nonce").map(|r| r.bytes.clone());
+    let pp = a.log.iter().find(|r| r.kind == "pay_proof").map(|r| r.bytes.clone());
+    if let (Some(est), Some(nonce), Some(pp)) = (est, nonce, pp) {
+        c.eval();
+        // positive: the recorded proofs are acceptable where they were made
+        let ok = init_accepts(m, &mut rng, &a.cid, 500, 500, &est, &ctx_a) == Ok(true) && pay_accepts(m, &mut rng, 5, &nonce, &pp, &ctx_a) == Ok(true);
+        if !ok {
+            return c.inconclusive("C06: recorded proofs of session A are not accepted in their own session");
+        }
+        let ctx_b = format!("{}/B", name).into_bytes();
+        let cid_b = new_channel_id(m, &mut rng, b"m", b"c");
+        for (k, r) in [
+            ("establish-proof/other-session-context", init_accepts(m, &mut rng, &a.cid, 500, 500, &est, &ctx_b)),
+            ("establish-proof/other-channel", init_accepts(m, &mut rng, &cid_b, 500, 500, &est, &ctx_a)),
+            ("establish-proof/other-merchant", init_accepts(other, &mut rng, &a.cid, 500, 500, &est, &ctx_a)),
+            ("pay-proof/other-session-context", pay_accepts(m, &mut rng, 5, &nonce, &pp, &ctx_b)),
+            ("pay-proof/other-merchant", pay_accepts(other, &mut rng, 5, &nonce, &pp, &ctx_a)),
+        ] {
+            c.eval();
+            c.distinct(&format!("replay-proof/{}", k));
+            match r {
+                Ok(false) => c.count("replayed_proofs_rejected", 1),
+                Ok(true) => c.violation(&format!("C06 replayed-proof-accepted what={}", k), json!({"what": k})),
+                Err(e) => c.inconclusive(&e),
+            }
+        }
+    }
+}
+
+fn close_accepts(m: &Merchant, bytes: &[u8]) -> Result<bool, String> {
+    let cm: ClosingMessage = dec(bytes)?;
+    let (sig, st) = cm.into_parts();
+    Ok(matches!(m.cfg.check_close_signature(sig, &st), Verification::Verified))
+}
+
+/// closing messages with one field replaced by the value from another state or channel
+fn closing_case(c: &mut Ctx, m: &'static Merchant, name: &str) {
+    let mut rng = c.rng(name);
+    let collect = |sess: &mut Sess, tag: &str, out: &mut Vec<(String, Vec<u8>)>, rng: &mut rand_chacha::ChaCha20Rng| {
+        if let Ok(Some(cm)) = sess.stage.close_from_copy(rng) {
+            out.push((format!("{}@{}", tag, sess.stage.name()), enc(&cm)));
+        }
+    };
+    let mut msgs: Vec<(String, Vec<u8>)> = vec![];
+    // channel X: closes collected at every stage across two payments; channel Y: another channel
+    for tag in ["X", "Y"] {
+        let ctx = format!("{}/{}", name, tag).into_bytes();
+        let cust = 100 + (rng.next_u64() % 100);
+        let merch = 100 + (rng.next_u64() % 100);
+        let cid = new_channel_id(m, &mut rng, b"m", b"c");
+        let (mut s, proof) = match Sess::request(m, &mut rng, cid, cust, merch, &ctx) {
+            Ok(x) => x,
+            Err(e) => return c.inconclusive(&e),
+        };
+        let r: Result<(), String> = (|| {
+            let sig = s.m_initialize(&mut rng, cust, merch, &proof, &ctx)?.ok_or("refused")?;
+            s.c_complete(&sig)?;
+            collect(&mut s, tag, &mut msgs, &mut rng);
+            let tok = s.m_activate(&mut rng)?;
+            s.c_activate(&tok)?;
+            collect(&mut s, tag, &mut msgs, &mut rng);
+            for a in [7i64, -3] {
+                let (n, p) = s.c_start(&mut rng, amount(a)?, &ctx)?.map_err(|e| format!("{:?}", e))?;
+                collect(&mut s, tag, &mut msgs, &mut rng);
+                let sig = s.m_allow(&mut rng, amount(a)?, &n, &p, &ctx)?.ok_or("refused")?;
+                let (pair, bf) = s.c_lock(&sig)?.ok_or("refused")?;
+                collect(&mut s, tag, &mut msgs, &mut rng);
+                let tok = s.m_complete(&mut rng, &pair, &bf)?.ok_or("refused")?;
+                s.c_unlock(&tok)?;
+                collect(&mut s, tag, &mut msgs, &mut rng);
+            }
+            Ok(())
+        })();
+        if let Err(e) = r {
+            return c.inconclusive(&format!("C06: honest history failed: {}", e));
+        }
+    }
+    let fields = ["close_signature/sigma1", "close_signature/sigma2", "close_state/channel_id", "close_state/revocation_lock", "close_state/merchant_balance", "close_state/customer_balance"];
+    let traces: Vec<(String, crate::tracer::Trace)> = msgs
+        .iter()
+        .filter_map(|(k, b)| dec::<ClosingMessage>(b).ok().and_then(|cm| trace(&cm).ok()).map(|t| (k.clone(), t)))
+        .collect();
+    for (k, t) in &traces {
+        c.eval();
+        match close_accepts(m, &t.bytes) {
+            Ok(true) => c.count("positive_controls_accepted", 1),
+            _ => return c.inconclusive(&format!("C06: honest closing message {} not accepted", k)),
+        }
+        for (k2, t2) in &traces {
+            if k == k2 {
+                continue;
+            }
+            for f in fields {
+                let (Ok(a), Ok(b)) = (t.fget(f), t2.fget(f)) else { return c.inconclusive("C06: closing message layout") };
+                if a == b {
+                    continue; // same value (e.g. channel id of the same channel): not a substitution
+                }
+                let mut t3 = t.clone();
+                if t3.fset(f, &b).is_err() {
+                    continue;
+                }
+                c.eval();
+                let rel = if k[..1] == k2[..1] { "same-channel-other-state" } else { "other-channel" };
+                c.distinct(&format!("closing/{}/{}/{}", f, rel, k.split('@').last().unwrap_or("")));
+                match close_accepts(m, &t3.bytes) {
+                    Ok(false) => c.count(&format!("substituted_closing_rejected[{}]", f), 1),
+                    Ok(true) => c.violation(
+                        &format!("C06 closing-message-accepted-with-substituted field={} from={}", f, rel),
+                        json!({"message": k, "field": f, "value_from": k2}),
+                    ),
+                    Err(_) => c.count("substituted_closing_not_decodable", 1),
+                }
+            }
+        }
+        // near values
+        for f in ["close_state/merchant_balance", "close_state/customer_balance"] {
+            let v = le64(&t.fget(f).unwrap_or(vec![0; 8]));
+            for nv in [v.wrapping_add(1), v.wrapping_sub(1)] {
+                if nv > MAXB {
+                    continue;
+                }
+                let mut t3 = t.clone();
+                let _ = t3.fset(f, &nv.to_le_bytes());
+                c.eval();
+                c.distinct(&format!("closing/{}/near/{}", f, k.split('@').last().unwrap_or("")));
+                match close_accepts(m, &t3.bytes) {
+                    Ok(false) => c.count("substituted_closing_rejected[balance+-1]", 1),
+                    Ok(true) => c.violation(&format!("C06 closing-message-accepted-with-substituted field={} from=near-value", f), json!({"message": k})),
+                    Err(_) => {}
+                }
+            }
+        }
+    }
+    c.sample(json!({"closing_messages": traces.iter().map(|(k, _)| k.clone()).collect::<Vec<_>>(), "fields": fields}));
+    let _ = Stage::None;
+}
 
 pub fn run(c: &mut Ctx) {
-    c.inconclusive("C06: monitor not written yet");
+    c.note("rule", json!("establish tuple (key, channel id, balances, context) and pay tuple (key, range parameters, revocation-commitment parameters, nonce, amount, context): each component replaced by a fresh value and by near values (balance+-1, amount+-1, negated, zero, context with one byte changed / appended / truncated / empty, nonce+1), merchant configurations recombined with from_parts so that exactly one part differs; recorded replies and proofs presented in other sessions (other channel, other merchant, other context) at every reply point; closing messages from every stage with each field replaced by the value from an earlier / later state or another channel. Distinct = distinct (proof kind, substituted component, substitution kind)."));
+    let m = match fixtures::merchant(c.seed, "m0") {
+        Ok(m) => m,
+        Err(e) => return c.inconclusive(&e),
+    };
+    let other = match fixtures::merchant(c.seed, "m1") {
+        Ok(m) => m,
+        Err(e) => return c.inconclusive(&e),
+    };
+    let tuples: Vec<(u64, u64)> = vec![(10, 1000), (0, 0), (1, MAXB), (MAXB, 1), (1 << 40, 1 << 20), (5, 5)];
+    let reps = c.tier.pick(2usize, 12);
+    for r in 0..reps {
+        for (i, (cust, merch)) in tuples.iter().enumerate() {
+            let name = format!("establish/{}/{}", r, i);
+            c.case(&name, |c| {
+                if let Err(p) = guard(|| establish_case(c, m, other, &name, *cust, *merch)) {
+                    c.violation(&format!("C06 panic loc={}", repo_rel(&p.location)), json!({"panic": p.message}));
+                }
+            });
+        }
+    }
+    let pays: Vec<(u64, u64, i64)> = vec![(1000, 10, 7), (10, 1000, -7), (500, 500, 0), (MAXB, 0, MAXB as i64), (0, MAXB, -1), (1 << 40, 1 << 40, -(1 << 39))];
+    let preps = c.tier.pick(1usize, 8);
+    for r in 0..preps {
+        for (i, (cust, merch, a)) in pays.iter().enumerate() {
+            let name = format!("pay/{}/{}", r, i);
+            c.case(&name, |c| {
+                if let Err(p) = guard(|| pay_case(c, m, other, &name, *cust, *merch, *a)) {
+                    c.violation(&format!("C06 panic loc={}", repo_rel(&p.location)), json!({"panic": p.message}));
+                }
+            });
+        }
+    }
+    for r in 0..c.tier.pick(4usize, 40) {
+        let name = format!("replay/{}", r);
+        c.case(&name, |c| {
+            if let Err(p) = guard(|| replay_case(c, m, other, &name)) {
+                c.violation(&format!("C06 panic loc={}", repo_rel(&p.location)), json!({"panic": p.message}));
+            }
+        });
+    }
+    for r in 0..c.tier.pick(6usize, 60) {
+        let name = format!("closing/{}", r);
+        c.case(&name, |c| {
+            if let Err(p) = guard(|| closing_case(c, m, &name)) {
+                c.violation(&format!("C06 panic loc={}", repo_rel(&p.location)), json!({"panic": p.message}));
+            }
+        });
+    }
 }
